@@ -17,6 +17,7 @@ use parking_lot::Mutex;
 use std::collections::HashMap;
 use std::io::ErrorKind;
 use std::pin::Pin;
+use std::sync::atomic::{AtomicBool, Ordering};
 use std::sync::Arc;
 
 pub(crate) struct Subscriber {
@@ -29,6 +30,9 @@ pub(crate) struct PubSocketBackend {
     subscribers: scc::HashMap<PeerIdentity, Subscriber>,
     socket_monitor: Mutex<Option<mpsc::Sender<SocketEvent>>>,
     socket_options: SocketOptions,
+    /// Set once the socket is gone: a peer whose handshake completes
+    /// afterwards must not be given a reader task that nobody will ever stop.
+    closed: AtomicBool,
 }
 
 impl PubSocketBackend {
@@ -82,6 +86,7 @@ impl SocketBackend for PubSocketBackend {
     }
 
     fn shutdown(&self) {
+        self.closed.store(true, Ordering::SeqCst);
         self.subscribers.clear_sync();
     }
 
@@ -108,6 +113,10 @@ impl MultiPeerBackend for PubSocketBackend {
             .await;
         #[cfg(feature = "verif-hooks")]
         crate::verif_hooks::yield_point("pub.peer_connected.after_upsert").await;
+        if self.closed.load(Ordering::SeqCst) {
+            let _ = self.subscribers.remove_async(peer_id).await;
+            return;
+        }
         let backend = self;
         let peer_id = peer_id.clone();
         async_rt::task::spawn(async move {
@@ -215,6 +224,7 @@ impl Socket for PubSocket {
                 subscribers: scc::HashMap::new(),
                 socket_monitor: Mutex::new(None),
                 socket_options: options,
+                closed: AtomicBool::new(false),
             }),
             binds: HashMap::new(),
         }
